@@ -81,9 +81,7 @@ let model_res (s : info) (o : op) : string =
     (match payload_check a b raw with
      | Err WrongTokenRange -> "rWrongTokenRange"
      | Err ShardNum -> "rShardNum"
-     | Ok ((_, _), r) ->
-       let unresolved = List.length (List.filter (fun (h, _) -> not (List.exists (fun nd -> nd.host = h) known)) r) in
-       Printf.sprintf "a%x" unresolved)
+     | Ok _ -> "a")
 
 (* ---- the property evaluated on the implementation's observation of one step ---- *)
 
@@ -106,7 +104,15 @@ let parse_table (s : string) =
     Some (ranges, lks)
   end
 
-(* returns Some reason when the PROPERTY fails on the implementation's output of this step *)
+(* replica lists as multisets of printed replicas: the property clauses are evaluated up to order, so an
+   order-only difference is a broken correspondence (diff), not a violation of the property *)
+let sorted_reps (s : string) : string list = List.sort compare (split ',' s)
+let same_multiset (a : string) (b : string) : bool = sorted_reps a = sorted_reps b
+
+exception Malformed of string
+
+(* returns Some reason when the PROPERTY fails on the implementation's output of this step;
+   raises Malformed when that output cannot be parsed (reported as error, not as viol) *)
 let property_fails (hist : op list) tables tokens dcs (obs : string) : string option =
   if obs = "panic" then Some "panic" else
   match String.split_on_char '~' obs with
@@ -114,11 +120,12 @@ let property_fails (hist : op list) tables tokens dcs (obs : string) : string op
     let fail = ref None in
     List.iter2 (fun k tab ->
         if !fail = None then
-        match parse_table tab with
+        match (try parse_table tab with _ -> raise (Malformed "table")) with
         | None -> ()
         | Some (ranges, lks) ->
           if not (ranges_okb ranges) then fail := Some "ranges-not-sorted-disjoint"
-          else if List.length lks = List.length tokens then
+          else begin
+            if List.length lks <> List.length tokens then raise (Malformed "lookup-count");
             List.iter2 (fun tok lk ->
                 if !fail = None then begin
                   let tok = token_new tok in
@@ -127,21 +134,24 @@ let property_fails (hist : op list) tables tokens dcs (obs : string) : string op
                     if lk = "n" then None, []
                     else match String.split_on_char ':' lk with
                       | [_; _; all; per] -> Some all, String.split_on_char '/' per
-                      | _ -> Some "?", [] in
+                      | _ -> raise (Malformed "lookup") in
                   (match spec, impl_all with
                    | None, None -> ()
-                   | Some l, Some a when reps_s l = a -> ()
+                   | Some l, Some a when same_multiset (reps_s l) a -> ()
                    | _ -> fail := Some (Printf.sprintf "lookup-differs-from-spec tok=%s spec=%s"
                                           (hex_of_z tok) (match spec with None -> "n" | Some l -> reps_s l)));
-                  if !fail = None && impl_all <> None && List.length impl_dcs = List.length dcs then
+                  if !fail = None && impl_all <> None then begin
+                    if List.length impl_dcs <> List.length dcs then raise (Malformed "dc-count");
                     List.iter2 (fun d got ->
                         match spec_lookup_dc hist k tok d with
-                        | Some l when reps_s l <> got && !fail = None ->
+                        | Some l when not (same_multiset (reps_s l) got) && !fail = None ->
                           fail := Some (Printf.sprintf "dc-list-not-restriction tok=%s dc=%s spec=%s" (hex_of_z tok) (hex_of_n d) (reps_s l))
                         | _ -> ()) dcs impl_dcs
-                end) tokens lks) tables tabs;
+                  end
+                end) tokens lks
+          end) tables tabs;
     !fail
-  | _ -> None
+  | _ -> raise (Malformed "step")
 
 let verdict case impl =
   match case with
@@ -167,9 +177,10 @@ let verdict case impl =
            let m = observe s' (model_res s o) tables tokens dcs in
            if m = ob then go s' hist ops' obs' (i + 1)
            else
-             match property_fails hist tables tokens dcs ob with
-             | Some why -> Printf.sprintf "viol step=%d %s" i why
-             | None -> Printf.sprintf "diff step=%d model=%s" i (if String.length m > 300 then String.sub m 0 300 else m))
+             match (try Ok (property_fails hist tables tokens dcs ob) with Malformed w -> Err w) with
+             | Err w -> Printf.sprintf "error malformed-observation step=%d %s" i w
+             | Ok (Some why) -> Printf.sprintf "viol step=%d %s" i why
+             | Ok None -> Printf.sprintf "diff step=%d model=%s" i (if String.length m > 300 then String.sub m 0 300 else m))
     in
     go info_empty [] ops impl 1
   | _ -> "error unknown-case"
